@@ -326,6 +326,48 @@ impl Handle {
     }
 }
 
+impl Handle {
+    /// Let go of the pool without calling shutdown and read the result channel until it closes:
+    /// the workers finish what was accepted as Queued and end when their queues are gone.  None =
+    /// the channel did not close within the budget (inconclusive).
+    pub fn drop_and_collect(self, budget: Duration) -> Option<Vec<Vec<String>>> {
+        fn collect<T>(rx: Receiver<T>, budget: Duration, f: impl Fn(&T) -> Vec<String>) -> Option<Vec<Vec<String>>> {
+            let start = Instant::now();
+            let mut out = Vec::new();
+            loop {
+                match rx.recv_timeout(Duration::from_millis(100)) {
+                    Ok(x) => {
+                        let l = f(&x);
+                        if !l.is_empty() {
+                            out.push(l);
+                        }
+                    }
+                    Err(std::sync::mpsc::RecvTimeoutError::Disconnected) => return Some(out),
+                    Err(std::sync::mpsc::RecvTimeoutError::Timeout) => {
+                        if start.elapsed() > budget {
+                            return None;
+                        }
+                    }
+                }
+            }
+        }
+        match self {
+            Handle::Tcp(p, rx) => {
+                drop(p);
+                collect(rx, budget, |r| canon::tcp(r))
+            }
+            Handle::Http(p, rx) => {
+                drop(p);
+                collect(rx, budget, |r| canon::http(r))
+            }
+            Handle::Tls(p, rx) => {
+                drop(p);
+                collect(rx, budget, |r| vec![canon::tls(r)])
+            }
+        }
+    }
+}
+
 #[derive(Clone, Copy, Debug, PartialEq, Eq)]
 pub enum Drain {
     /// every queued frame reached the `WorkerProcessed` point
